@@ -82,7 +82,8 @@ def run_session(rnd, w, dumps, kinds, gen_cfg, nacts=14, max_gens=4):
         acts.append({'op': 'cfg', 'cfg': cfg, 'inplace': inplace})
         script.append('cfg %s %s' % ('in-place' if inplace else 'assign', cfg))
         for g in gens:
-            g[3] = False      # what a half-read listing does after the options changed is not claimed: abandoned (kept referenced)
+            if g[3]:
+                g[3] = 'stale'    # what a half-read listing does after the options changed is not claimed; it may still be read
 
     def do_open(kind=None):
         kind = kind or rnd.choice(kinds)
